@@ -153,7 +153,17 @@ HistDo(o, x, a, res) ==
     /\ h' = res /\ op' = o /\ aff' = IF a = NoAff THEN None ELSE a
     /\ hist' = [hist EXCEPT !.steps = Append(hist.steps, HStep(o, x, a))]
     /\ stage' = StageOf(Depth + 1) /\ UNCHANGED sched
+\* one step beyond the depth bound: directly after an elimination (cached states, infeasible last children kept) a composition that
+\* changes the output dimension - every terminal must be rewritten, whatever its cached state says
+HistTail == \E x \in HistComposeDim, o \in {"compose", "compose_prune"} :
+    /\ MODE = "history" /\ Depth = NG /\ op = "eliminate" /\ OutDims(h) \subseteq {2}
+    /\ f' = [abs |-> f.abs, lay |-> "dfs", t |-> h]
+    /\ g' = [abs |-> x, lay |-> "dfs", t |-> BuildTree(x, K, "dfs")]
+    /\ h' = (IF o = "compose" THEN Compose(h, BuildTree(x, K, "dfs")) ELSE ComposePruned(h, BuildTree(x, K, "dfs"))) /\ op' = o /\ aff' = None
+    /\ hist' = [hist EXCEPT !.steps = Append(hist.steps, HStep(o, x, NoAff))]
+    /\ stage' = StageOf(Depth + 1) /\ UNCHANGED sched
 HistNext ==
+    \/ HistTail
     \/ HistDo("eliminate", None, NoAff, Eliminate(h))
     \/ HistDo("reduce", None, NoAff, Reduce(h))
     \/ HistDo("neg", None, NoAff, NegTree(h))
